@@ -301,7 +301,7 @@ def special_leaf(draw, ctr, files=('inc_a.yaml', 'inc_b.yaml'), allow_structural
     elif k in ('call', 'bind'):
         nargs = draw(st.integers(0, 2))
         items = []
-        for key in draw(st.lists(st.sampled_from(['x', 'y', 0, 1]), min_size=nargs, max_size=nargs, unique=True)):
+        for key in draw(st.lists(st.sampled_from(['x', 'y', 0, 1, 'x', 'y', 'copy', 'values']), min_size=nargs, max_size=nargs, unique=True)):
             v = draw(st.one_of(st.integers(0, 9).map(tdoc.sc), st.just(tdoc.raw('a', '!xref')), st.just(tdoc.sq([tdoc.sc(1)], flow=True))))
             items.append([key, v])
         node = tdoc.mp(items, flow=True, tag=f'!{k}:vfrec.call_{n}')
